@@ -567,7 +567,11 @@ func genC19core(o *Out, r *Rng, thorough bool) {
 // can be observed from outside - the lookups of SenderForBundle (seen from the mock sender's
 // GetPeerEndpointID, which the loop calls) and the writes of encounter / agePred / transitivity
 // (seen from a logrus hook on their debug messages, emitted right after the write inside the
-// locked region) - ask the mutex whether it is held.
+// locked region) - ask the mutex whether it is held.  The same for the look-ups of the metadata
+// path: NotifyNewBundle reports "Updating peer metadata" / "Metadata for new peer" right after it
+// has looked the sender up in peerPredictabilities and right before it stores the vector,
+// transitivity reports right after its look-up of the stored vector, SenderForBundle reports its
+// comparison of the two predictabilities inside the loop that reads both maps.
 
 type pfLockObs struct {
 	site string
@@ -601,6 +605,12 @@ func (pfLogHook) Fire(e *log.Entry) error {
 		pfProbeAdd("agePred.write", pfProbe.p.VerifDataWriteLockHeld())
 	case "Updated predictability via transitivity":
 		pfProbeAdd("transitivity.write", pfProbe.p.VerifDataWriteLockHeld())
+	case "Updating peer metadata", "Metadata for new peer":
+		pfProbeAdd("NotifyNewBundle.lookup", pfProbe.p.VerifDataWriteLockHeld())
+	case "Updating transitive predictabilities", "Don't know peer's predictabilities":
+		pfProbeAdd("transitivity.lookup", pfProbe.p.VerifDataWriteLockHeld())
+	case "Found possible forwarding candidate", "Peer is not good forwarding candidate", "Peer already has this bundle", "Will forward bundle to peer.":
+		pfProbeAdd("SenderForBundle.compare", pfProbe.p.VerifDataLockHeld())
 	}
 	return nil
 }
@@ -651,6 +661,10 @@ func pfLocks(o *Out) {
 	n.Receive(pfMetaBundle(1, 0, map[bpv7.EndpointID]float64{pfEID(7): 0.5, pfEID(8): 1}), pfNode(1)) // import + transitivity
 	p.VerifAgeCron()                                                                                  // ageing
 	n.Submit(pfDataBundle(7, 1))                                                                      // SenderForBundle
+	n.TickPending()
+	n.Receive(pfMetaBundle(1, 0, map[bpv7.EndpointID]float64{pfEID(7): 1, pfEID(9): 0.25}), pfNode(1)) // a newer vector of a known peer
+	n.Receive(pfMetaBundle(2, 0, map[bpv7.EndpointID]float64{}), pfNode(2))                            // an empty vector of a new peer
+	n.Submit(pfDataBundle(7, 2))                                                                       // offered now: peer 1 advertises 1
 	n.TickPending()
 	pfProbe.on = false
 	log.SetLevel(old)
@@ -718,6 +732,181 @@ func genC19stresschild(o *Out, r *Rng, thorough bool) {
 	os.Exit(0) // do not wait for an orderly shutdown
 }
 
+// ---------------------------------------------------------------------------------------------
+// concurrent summary vectors in a child process: bundles received by different convergence layers
+// are handled in goroutines of their own, so the metadata path (NotifyNewBundle: look-up of the
+// sender in peerPredictabilities, store of its vector, transitivity) runs several times at once,
+// next to peers appearing (encounter + sendMetadata), ageing, SenderForBundle and status reads.
+// Many peers: peerPredictabilities keeps growing (a growing Go map spends longest inside an
+// assignment).  The work is a fixed number of rounds, not a time span.  At the end every
+// predictability the node holds must be a probability.
+
+func pfMetaVec(r *Rng, dests int) map[bpv7.EndpointID]float64 {
+	m := map[bpv7.EndpointID]float64{}
+	for k := 0; k < 1+r.Intn(3); k++ {
+		m[pfEID(5000+r.Intn(dests))] = pfVal(r)
+	}
+	return m
+}
+
+// pfMetaClone is the metadata bundle `tmpl` with another source node, creation time and vector
+// (Build() validates and sizes every bundle: too slow for tens of thousands of them).
+func pfMetaClone(tmpl *bpv7.Bundle, src int, vec map[bpv7.EndpointID]float64) bpv7.Bundle {
+	b := *tmpl
+	b.PrimaryBlock.SourceNode = pfEID(src)
+	b.PrimaryBlock.ReportTo = b.PrimaryBlock.SourceNode
+	b.PrimaryBlock.CreationTimestamp = bpv7.NewCreationTimestamp(bpv7.DtnTimeFromTime(pfTime()), 0)
+	b.CanonicalBlocks = nil
+	for _, cb := range tmpl.CanonicalBlocks {
+		if cb.TypeCode() == bpv7.ExtBlockTypeProphetBlock {
+			nb := bpv7.NewCanonicalBlock(cb.BlockNumber, cb.BlockControlFlags, bpv7.NewProphetBlock(vec))
+			nb.SetCRCType(cb.GetCRCType())
+			b.CanonicalBlocks = append(b.CanonicalBlocks, nb)
+		} else {
+			b.CanonicalBlocks = append(b.CanonicalBlocks, cb)
+		}
+	}
+	return b
+}
+
+func genC19metachild(o *Out, r *Rng, thorough bool) {
+	// (with the lock taken after the look-up, 5 rounds already end in the runtime's fatal error in 19 of
+	// 20 runs on 16 cores; 40 rounds x 4 children leave a wide margin for a busy machine)
+	workers, rounds, perRound := 8, 40, 24
+	if thorough {
+		workers, rounds, perRound = 12, 300, 24
+	}
+	conf := routing.ProphetConfig{PInit: 0.75, Beta: 0.25, Gamma: 0.98, AgeInterval: "100000h"}
+	n, p := pfCoreNode(conf)
+	for i := 1; i <= 3; i++ {
+		n.PeerUp(pfPeerName(i), pfNode(i))
+	}
+	n.Submit(pfDataBundle(5001, 1))
+	n.Submit(pfDataBundle(5002, 2))
+	// the bundles are built beforehand (deterministically from the seed); worker w delivers the
+	// vectors of its own peers 100000*w + ..., new ones in every round and some known ones again
+	type job struct {
+		b    bpv7.Bundle
+		from bpv7.EndpointID
+	}
+	jobs := make([][]job, workers)
+	tmpl := pfMetaBundle(1, 0, map[bpv7.EndpointID]float64{})
+	for w := 0; w < workers; w++ {
+		for k := 0; k < rounds*perRound; k++ {
+			peer := 100000*(w+1) + k
+			if k > 8 && r.Intn(4) == 0 {
+				peer = 100000*(w+1) + r.Intn(k) // a newer vector of a known peer
+			}
+			if r.Intn(16) == 0 {
+				peer = 1 + r.Intn(3) // a connected peer
+			}
+			jobs[w] = append(jobs[w], job{pfMetaClone(&tmpl, peer, pfMetaVec(r, 12)), pfEID(peer)})
+		}
+	}
+	var done int32
+	var wg, bg sync.WaitGroup
+	gate := make(chan struct{})
+	for w := 0; w < workers; w++ {
+		wg.Add(1)
+		go func(w int) {
+			defer wg.Done()
+			<-gate
+			for k := range jobs[w] {
+				j := &jobs[w][k]
+				if w == 0 && k%64 == 0 {
+					n.Core.VerifReceive(j.b, j.from) // the whole reception path of the Core
+				} else {
+					p.VerifNotify(&j.b, j.from)
+				}
+			}
+		}(w)
+	}
+	background := []func(i int){
+		func(i int) { n.Core.VerifPeerAppeared(n.Peers[pfPeerName(1+i%3)]) }, // encounter + sendMetadata + pending check
+		func(i int) { p.VerifAgeCron() },
+		func(i int) { n.Core.VerifCheckPending() }, // SenderForBundle
+		func(i int) { p.VerifSendMetadata(pfEID(1 + i%3)) },
+		func(i int) { _ = p.VerifPreds() },
+	}
+	for _, f := range background {
+		bg.Add(1)
+		go func(f func(int)) {
+			defer bg.Done()
+			<-gate
+			for i := 0; atomic.LoadInt32(&done) == 0; i++ {
+				f(i)
+				time.Sleep(300 * time.Microsecond) // leave the lock to the deliveries most of the time
+			}
+		}(f)
+	}
+	close(gate)
+	wg.Wait()
+	atomic.StoreInt32(&done, 1)
+	bg.Wait()
+	bad := ""
+	chk := func(where string, k bpv7.EndpointID, v float64) {
+		if bad == "" && !(v >= 0 && v <= 1) {
+			bad = fmt.Sprintf("%s[%s] = %v", where, k, v)
+		}
+	}
+	for k, v := range p.VerifPreds() {
+		chk("own", k, v)
+	}
+	peers := p.VerifPeerPreds()
+	for q, m := range peers {
+		for k, v := range m {
+			chk("peer "+q.String(), k, v)
+		}
+	}
+	os.RemoveAll(n.Dir)
+	if bad != "" {
+		fmt.Fprintln(os.Stderr, "VERIF-RANGE "+bad)
+		os.Exit(3)
+	}
+	fmt.Fprintf(os.Stderr, "VERIF-DONE peers=%d\n", len(peers))
+	os.Exit(0) // do not wait for an orderly shutdown
+}
+
+func pfRunChild(prop string, seed int, tier string) (int, string) {
+	exe, err := os.Executable()
+	if err != nil {
+		return -1, "noexe"
+	}
+	cmd := exec.Command(exe, "-prop", prop, "-seed", fmt.Sprint(seed), "-tier", tier, "-out", os.DevNull)
+	var eb bytes.Buffer
+	cmd.Stderr = &eb
+	cmd.Stdout = &eb
+	err = cmd.Run()
+	code := 0
+	if err != nil {
+		code = 1
+		if ee, ok := err.(*exec.ExitError); ok {
+			code = ee.ExitCode()
+		}
+	}
+	what := "clean"
+	es := eb.String()
+	switch {
+	case strings.Contains(es, "concurrent map iteration and map write"):
+		what = "concurrent-map-iteration"
+	case strings.Contains(es, "concurrent map read and map write"):
+		what = "concurrent-map-read"
+	case strings.Contains(es, "concurrent map"):
+		what = "concurrent-map-writes"
+	case strings.Contains(es, "VERIF-RANGE"):
+		what = "range"
+	case strings.Contains(es, "fatal error"):
+		what = "fatal"
+	case strings.Contains(es, "panic:"):
+		what = "panic"
+	case code != 0:
+		what = "exit"
+	case !strings.Contains(es, "VERIF-DONE"):
+		what = "incomplete"
+	}
+	return code, what
+}
+
 func genC19stress(o *Out, r *Rng, thorough bool) {
 	exe, err := os.Executable()
 	if err != nil {
@@ -763,6 +952,15 @@ func genC19stress(o *Out, r *Rng, thorough bool) {
 		}
 		o.Case("stress", I(code), Sym(what))
 	}
+	// concurrent summary vectors (metadata path), several children with different seeds
+	metaRuns := 4
+	if thorough {
+		metaRuns = 8
+	}
+	for i := 0; i < metaRuns; i++ {
+		code, what := pfRunChild("C19metachild", int(r.U64()%1000000), tier)
+		o.Case("stress2", Sym("metadata"), I(code), Sym(what))
+	}
 }
 
 func init() {
@@ -770,4 +968,5 @@ func init() {
 	register("C19core", genC19core)
 	register("C19stress", genC19stress)
 	register("C19stresschild", genC19stresschild)
+	register("C19metachild", genC19metachild)
 }
